@@ -37,12 +37,14 @@ EXC = 'pylatexenc.latexnodes._exctypes.'
 
 
 class NodeSeq(object):
-    def __init__(self, n, end, exact, order):
+    def __init__(self, n, end, exact, order, first=None, nonempty=False):
         self.n, self.end, self.exact, self.order = n, end, exact, order
+        self.first = first            # pos of the first non-None node (meaningful iff nonempty)
+        self.nonempty = nonempty      # some non-None node has been appended
         self.appended = []        # nodes appended on this path (python list, for post-conditions)
 
     def pyvc_snapshot(self):
-        c = NodeSeq(self.n, self.end, self.exact, self.order)
+        c = NodeSeq(self.n, self.end, self.exact, self.order, self.first, self.nonempty)
         c.appended = list(self.appended)
         return c
 
@@ -66,6 +68,11 @@ class NodeSeq(object):
                     return None
                 self.exact = z_and(self.exact, V.z_eq(p, self.end), zint(p) <= zint(e))
                 self.order = z_and(self.order, zint(p) >= zint(self.end), zint(p) <= zint(e))
+                if self.first is None:
+                    self.first = p
+                elif not isinstance(self.nonempty, bool) or not self.nonempty:
+                    self.first = V.z_ite(self.nonempty, self.first, p)
+                self.nonempty = True
                 self.end = e
                 return None
             return Builtin('nodelist.append', app)
@@ -119,7 +126,10 @@ def mk_collector(it, s=None, pending=None):
     tr = mk_reader_at(it, s, w.fields['tolerant_parsing'])
     ps = mk_parsing_state(it, 'parsing_state')
     end = sym_int(it, 'nodes.end', lo=0)
-    nodes = NodeSeq(sym_int(it, 'nodes.n', lo=0), end, True, True)
+    nonempty = sym_bool(it, 'nodes.nonempty')
+    first = sym_int(it, 'nodes.first', lo=0)
+    ctx.assume(first <= end)
+    nodes = NodeSeq(sym_int(it, 'nodes.n', lo=0), end, True, True, first, nonempty)
     if pending is None:
         pending = ctx.choose(2, 'pending chars') == 1
     if pending:
@@ -175,6 +185,21 @@ def register(reg):
     reg.spec('nodes_end')(lambda it, c: c.fields['_nodelist'].end)
     reg.spec('nodes_n')(lambda it, c: c.fields['_nodelist'].n)
     reg.spec('nodes_exact')(lambda it, c: c.fields['_nodelist'].exact)
+    reg.spec('nodes_nonempty')(lambda it, c: c.fields['_nodelist'].nonempty)
+    reg.spec('nodes_first')(lambda it, c: c.fields['_nodelist'].first if c.fields['_nodelist'].first is not None else -1)
+
+    @reg.spec('first_kept')
+    def first_kept(it, c, old_nodes):
+        """appending keeps the first node; with consecutive nodes the first one starts where the list ended
+        when it was still empty"""
+        ns = c.fields['_nodelist']
+        f = zint(ns.first if ns.first is not None else -1)
+        of = zint(old_nodes.first if old_nodes.first is not None else -1)
+        return z_and(V.z_implies(V.zbool(old_nodes.nonempty), z_and(V.zbool(ns.nonempty), f == of)),
+                     V.z_implies(z_and(V.zbool(ns.exact), V.zbool(ns.nonempty), z_not(V.zbool(old_nodes.nonempty))),
+                                 f == zint(old_nodes.end)),
+                     V.z_implies(z_not(V.zbool(ns.nonempty)), zint(ns.end) == zint(old_nodes.end)),
+                     zint(ns.end) >= zint(old_nodes.end))
     reg.spec('last_appended')(lambda it, c: c.fields['_nodelist'].appended[-1])
     reg.spec('n_appended')(lambda it, c, o=None: len(c.fields['_nodelist'].appended) - (len(o.appended) if o is not None else 0))
 
@@ -252,7 +277,8 @@ def register(reg):
         raises={EXC + 'LatexWalkerParseError': {
             'when': 'not self.tolerant_parsing', 'make': make_parse_error,
             'ensures': [('located-error', 'exc.pos is not None and 0 <= exc.pos and exc.pos <= len(self.s)'),
-                        ('reader-stays-in-the-string', '0 <= token_reader._pos and token_reader._pos <= len(self.s)')]}},
+                        ('reader-stays-in-the-string', '0 <= token_reader._pos and token_reader._pos <= len(self.s)'),
+                        ('reader-never-moves-backwards', 'old(token_reader._pos) <= token_reader._pos')]}},
         modifies=[('token_reader._pos', 'int')],
         note='span contract of the parser interface; verified for parse_content given parser.parse in walker.py'))
 
@@ -279,9 +305,15 @@ def register(reg):
     def fresh_nodeseq(it, hint, cur=None):
         # appending only: the new list extends the old one (count grows, flags can only be lost)
         ns = NodeSeq(it.ctx.fresh_int('nodes.n'), it.ctx.fresh_int('nodes.end'), it.ctx.fresh_bool('nodes.exact'),
-                     it.ctx.fresh_bool('nodes.order'))
+                     it.ctx.fresh_bool('nodes.order'), it.ctx.fresh_int('nodes.first'), it.ctx.fresh_bool('nodes.nonempty'))
         if cur is not None:
             it.ctx.assume(z3.And(zint(ns.n) >= zint(cur.n), zint(ns.end) >= zint(cur.end)))
+            # appending never changes the first node nor empties the list
+            it.ctx.assume(z3.Implies(V.zbool(cur.nonempty), z3.And(ns.nonempty, zint(ns.first) == zint(cur.first if cur.first is not None else 0))))
+            # consecutive nodes: the first one starts where the (then empty) list ended
+            it.ctx.assume(z3.Implies(z3.And(ns.exact, ns.nonempty, z3.Not(V.zbool(cur.nonempty))), zint(ns.first) == zint(cur.end)))
+            it.ctx.assume(z3.Implies(z3.Not(ns.nonempty), zint(ns.end) == zint(cur.end)))
+            it.ctx.assume(z3.Implies(ns.nonempty, zint(ns.first) <= zint(ns.end)))
         return ns
     fresh_nodeseq.wants_current = True
     POT_MODIFIES = ['self._pending_chars', ('self._pending_chars_pos', ('opt', 'int')), 'self.token_reader._pos',
@@ -289,7 +321,9 @@ def register(reg):
                     ('self._stop_token_condition_met', 'bool'),
                     ('self._stop_token_condition_met_token', lambda it, hint: None),
                     ('self._stop_nodelist_condition_met', 'bool'), ('self._nodelist', fresh_nodeseq)]
-    ERRSTATE = [('strict:nodes-collected-before-the-error-are-kept-consistent', 'implies(not %s, pend_ok(self))' % TOL),
+    ERRSTATE = [('first-node-kept', 'first_kept(self, old(self._nodelist))'),
+                ('reader-at-or-after-entry', '%s >= old(%s)' % (RD, RD)),
+                ('strict:nodes-collected-before-the-error-are-kept-consistent', 'implies(not %s, pend_ok(self))' % TOL),
                 ('ordered-cover-kept', 'cov_weak(self)'), ('not-finalized', 'not self._finalized'),
                 ('reader-in-range', '0 <= %s and %s <= len(%s)' % (RD, RD, S))]
     c_pot = reg.add(Contract(
@@ -298,8 +332,9 @@ def register(reg):
         ensures=KEPT + [('progress', '%s > old(%s)' % (RD, RD))],
         raises={
             COLL + '.ReachedStoppingCondition': {'ensures': KEPT + [
-                ('strict:stop-leaves-reader-at-or-after-entry', 'implies(not %s, %s >= old(%s))' % (TOL, RD, RD))]},
-            COLL + '.ReachedEndOfStream': {'ensures': KEPT + [('nothing-left', '%s == len(%s)' % (RD, S))]},
+                ('stop-leaves-reader-at-or-after-entry', '%s >= old(%s)' % (RD, RD))]},
+            COLL + '.ReachedEndOfStream': {'ensures': KEPT + [('nothing-left', '%s == len(%s)' % (RD, S)),
+                                                              ('reader-at-or-after-entry', '%s >= old(%s)' % (RD, RD))]},
             EXC + 'LatexWalkerNodesParseError': {
                 'make': lambda it, env: make_parse_error(it, env, 'LatexWalkerNodesParseError'),
                 'ensures': [LOCATED] + ERRSTATE},
@@ -333,7 +368,7 @@ def register(reg):
     FLUSHED = [('strict:nodes-end-after-the-flushed-characters',
                 'implies(not %s, pend_ok(self) and nodes_end(self) == flushed_end(old(self._pending_chars_pos), '
                 'old(self._pending_chars), old(nodes_end(self))))' % TOL),
-               ('ordered-cover-kept', 'cov_weak(self)')]
+               ('ordered-cover-kept', 'cov_weak(self)'), ('first-node-kept', 'first_kept(self, old(self._nodelist))')]
     c_flush = reg.add(Contract(
         COLL + '.flush_pending_chars', setup=lambda it: {'self': mk_collector(it)},
         requires=FLUSH_REQ,
@@ -397,18 +432,35 @@ def register(reg):
         ensures=[('finalized', 'self._finalized == True'),
                  ('strict:cover-invariant-kept', 'implies(not %s, cov(self))' % TOL),
                  ('ordered-cover-kept', 'cov_weak(self)'),
+                 ('first-node-kept', 'first_kept(self, old(self._nodelist))'),
+                 ('reader-in-range', '0 <= %s and %s <= len(%s)' % (RD, RD, S)),
+                 ('reader-never-moves-backwards', '%s >= old(%s)' % (RD, RD)),
                  ('nothing-pending', 'self._pending_chars == ""')],
-        raises={EXC + 'LatexWalkerNodesParseError': {'ensures': [LOCATED, ('finalized', 'self._finalized == True')]},
-                EXC + 'LatexWalkerParseError': {'when': 'not %s' % TOL, 'ensures': [LOCATED]}},
+        raises={EXC + 'LatexWalkerNodesParseError': {
+                    'make': lambda it, env: make_parse_error(it, env, 'LatexWalkerNodesParseError'),
+                    'ensures': [LOCATED, ('finalized', 'self._finalized == True'), ('nothing-pending', 'self._pending_chars == ""'),
+                                ('first-node-kept', 'first_kept(self, old(self._nodelist))'),
+                                ('strict:nodes-collected-before-the-error-are-kept-consistent', 'implies(not %s, pend_ok(self))' % TOL),
+                                ('ordered-cover-kept', 'cov_weak(self)'),
+                                ('reader-in-range', '0 <= %s and %s <= len(%s)' % (RD, RD, S))]},
+                EXC + 'LatexWalkerParseError': {
+                    'when': 'not %s' % TOL, 'make': make_parse_error,
+                    'ensures': [LOCATED, ('finalized', 'self._finalized == True'), ('nothing-pending', 'self._pending_chars == ""'),
+                                ('first-node-kept', 'first_kept(self, old(self._nodelist))'),
+                                ('strict:nodes-collected-before-the-error-are-kept-consistent', 'pend_ok(self)'),
+                                ('reader-in-range', '0 <= %s and %s <= len(%s)' % (RD, RD, S))]}},
         modifies=['self._pending_chars', 'self._pending_chars_pos', 'self.token_reader._pos', 'self.parsing_state',
                   'self._stop_token_condition_met', 'self._stop_token_condition_met_token', 'self._finalized',
                   'self._stop_nodelist_condition_met', 'self._stop_condition_stop_data', 'self._reached_end_of_stream',
                   'self._nodelist']))
+    c_pt.extra_olds = ['self._nodelist', RD]
     reg.add_loop(LoopContract(
         COLL + '.process_tokens', 0,
-        invariant=COLL_REQ,
+        invariant=COLL_REQ + [('first-node-kept', 'first_kept(self, old(self._nodelist))'),
+                              ('reader-never-moves-backwards', '%s >= old(%s)' % (RD, RD))],
         variant='len(%s) - %s' % (S, RD),
-        havoc={'self._nodelist': lambda it, hint: NodeSeq(it.ctx.fresh_int('nodes.n'), it.ctx.fresh_int('nodes.end'), True, True),
+        havoc={'self._nodelist': lambda it, hint: NodeSeq(it.ctx.fresh_int('nodes.n'), it.ctx.fresh_int('nodes.end'), True, True,
+                                                          it.ctx.fresh_int('nodes.first'), it.ctx.fresh_bool('nodes.nonempty')),
                'self._pending_chars_pos': ('opt', 'int'), 'self.parsing_state': lambda it, hint: mk_parsing_state(it, 'ps_loop', db_inv=True)},
         havoc_fields=['self._pending_chars', 'self._pending_chars_pos', 'self.token_reader._pos', 'self._nodelist',
                       'self.parsing_state', 'self._stop_token_condition_met', 'self._stop_token_condition_met_token',
